@@ -27,6 +27,7 @@ Definition body_eqb (a b : body) : bool :=
   | BIds x, BIds y => list_eqb N.eqb x y
   | BReports x, BReports y => list_eqb report_eqb (sort_reports x) (sort_reports y)
   | BEmpty, BEmpty => true
+  | BDoc, BDoc => true
   | (BError | BText), (BError | BText) => true
   | _, _ => false
   end.
@@ -84,7 +85,7 @@ Definition reaches_handler (cfg : config) (s : st) (o : op) : bool :=
   match o with
   | OReq r =>
       match r_route r with
-      | RNotFound | RBadMethod | ROpaque => false
+      | RNotFound | RBadMethod | ROpaque | RDocSpec | RDocUI | ROptionsStar => false
       | _ => match validate_header (clock s) (cfg_host cfg) (cfg_secret cfg) (r_cred r) with Principal _ => true | _ => false end
       end
   | OWs path (Some k) _ =>
